@@ -538,8 +538,10 @@ PROPS = {
     "C11": {
         "suites": [("analyze", 1500, 40000), ("natural", 600, 10000), ("external", 400, 8000)],
         "rule": "seeded programs + random private-predicate sets; is_tight / has_private_recursion / is_regular vs the Lean model (explicit cycle test instead of petgraph)",
-        "level_text": "Partial: external_ok_implies (problems are emitted only if every applicability condition holds; otherwise an error and nothing else), isCyclic_sound / not_tight_has_cycle "
-                      "(a reported cycle is a real cycle), choice_private_is_recursion, regular_iff (C08) proved; completeness of the cycle test is pending; verdicts and error kinds are tied by exact correspondence.",
+        "level_text": "Full for the model: external_ok_implies / external_err_of_precheck (problems are emitted only if every applicability condition holds; otherwise an error and nothing else), "
+                      "the cycle test is exact - isCyclic_sound (a reported cycle is a real cycle) and isCyclic_complete (every real cycle is reported: the reachability computation saturates after |nodes| rounds, "
+                      "by a counting argument), hence tight_iff_acyclic (reported tight iff no predicate depends positively on itself); choice_private_is_recursion, regular_iff (C08). "
+                      "The model's cycle test replaces petgraph's and is compared with it on every generated input.",
         "level_note": PROOF_NOTE + " petgraph's is_cyclic_directed is replaced by an explicit reachability test in the model.",
         "technique": "Lean 4 proof (soundness of the cycle test) + differential correspondence",
         "design_ref": "DESIGN.md 6/C11",
